@@ -185,9 +185,12 @@ class Machine:
         self.npool = self.pool.shape[1]
         self.sut = Side(self.spec, ctx, "sut")
         self.twin = Side(self.spec, ctx, "twin") if config.get("twin") else None
+        self.spec["model"] = read_model(self.sut.srf.model)  # normal form for comparisons
         self.ref_cache = {}
         self.undo = []
         self.last = None  # description of the last requested positions
+        self.rng_fresh = True            # next generation starts from a freshly seeded stream
+        self.model_at_last_gen = None    # set after the spec was normalised below
         self.flavor = config.get("flavor", "plain")
         self.mdim = self.spec["model"]["dim"]
         self.vector = self.spec["gen"]["kind"] == "IncomprRandMeth"
@@ -383,8 +386,14 @@ class Machine:
         if f == "rejected_seed" and self.spec["gen"]["kind"] == "Fourier" and rng.random() < 0.5:
             bad = [rng.choice([4, 6, 8, 10]) for _ in range(self.dim)]
             bad[rng.randrange(self.dim)] = rng.choice([3, 5, 7])
-            return {"fault": "rejected_mode_no", "bad": bad,
-                    "via": rng.choice(["setter", "update"])}
+            via = rng.choice(["setter", "update", "update_with_model", "update_with_period"])
+            op = {"fault": "rejected_mode_no", "bad": bad, "via": via}
+            if via == "update_with_model" and self.dim > 1:
+                op["set_first"] = {"param": "anis",
+                                   "value": [rng.choice(cm.ANIS_GRID) for _ in range(self.dim - 1)]}
+            if via == "update_with_period":
+                op["period"] = [rng.choice([8.0, 10.0, 12.5, 20.0]) for _ in range(self.dim)]
+            return op
         if f == "rejected_seed":
             return {"fault": f, "bad": rng.choice([-1, -20170519]),
                     "idx": rng.sample(range(self.npool), min(2, self.npool)),
@@ -534,6 +543,8 @@ class Machine:
                 if k in a:
                     self.spec["gen"][k] = list(a[k])
             self.ctx.probe("gen.update_combo")
+            self.rng_fresh = False  # whether this combination re-seeded is not modelled
+            self.model_at_last_gen = None
             return
         for s in self.sides():
             g = s.srf.generator
@@ -561,6 +572,8 @@ class Machine:
             elif p == "mean_u":
                 g.mean_u = v
         if p in ("seed_attr", "reset_seed", "update_seed"):
+            if p == "reset_seed" or v != self.spec["seed"]:
+                self.rng_fresh = True
             self.spec["seed"] = v
             if p == "reset_seed":
                 self.ctx.probe("gen.reset_seed")
@@ -569,12 +582,16 @@ class Machine:
                 vv = v if isinstance(v, list) else [v]
                 vv = (vv + [vv[-1]] * self.dim)[: self.dim]
                 self.spec["gen"]["mode_no"] = vv
+                self.rng_fresh = True  # a mesh update always re-seeds
             else:
+                if v != self.spec["gen"]["mode_no"]:
+                    self.rng_fresh = True
                 self.spec["gen"]["mode_no"] = v
         elif p == "period":
             vv = v if isinstance(v, list) else [v]
             vv = (vv + [vv[-1]] * self.dim)[: self.dim]
             self.spec["gen"]["period"] = vv
+            self.rng_fresh = True
         elif p == "mean_u":
             self.spec["gen"]["mean_velocity"] = v
         # NOTE: a pending in-place model change is only picked up at the next call; the
@@ -636,16 +653,30 @@ class Machine:
         elif f == "rejected_mode_no":
             if self.spec["gen"]["kind"] != "Fourier" or len(op["bad"]) != self.dim:
                 raise Inapplicable("Fourier only")
+            via = op.get("via")
+            if via == "update_with_model" and op.get("set_first"):
+                try:
+                    self._apply_set({"op": "set", "param": op["set_first"]["param"],
+                                     "value": op["set_first"]["value"]})
+                except Inapplicable:
+                    pass
             for s in self.sides():
                 try:
-                    if op.get("via") == "update":
+                    if via == "update":
                         s.srf.generator.update(mode_no=list(op["bad"]))
+                    elif via == "update_with_model":
+                        s.srf.generator.update(model=s.srf.model, mode_no=list(op["bad"]))
+                    elif via == "update_with_period" and op.get("period"):
+                        s.srf.generator.update(period=list(op["period"]),
+                                               mode_no=list(op["bad"]))
                     else:
                         s.srf.generator.mode_no = list(op["bad"])
                 except ValueError:
                     pass
                 else:
                     raise Violation("C11.odd_mode_no_accepted", mode_no=op["bad"])
+            self.rng_fresh = False
+            self.model_at_last_gen = None
             # a rejected setting is not a change: the abstract spec stays as it is and the
             # next observations are compared with a generator built from it
             self.ctx.fired("rejected_mode_no")
@@ -669,6 +700,10 @@ class Machine:
         # make sure a pending in-place model change has reached the generator
         pts = self.pool[:, idx]
         out = []
+        mkey = jdump(self.spec["model"])
+        if self.model_at_last_gen is not None and mkey != self.model_at_last_gen:
+            self.rng_fresh = True
+        self.model_at_last_gen = mkey
         for s in self.sides():
             s.srf.generator.update(s.srf.model)
             iso = np.ascontiguousarray(s.srf.model.isometrize(pts))
@@ -712,6 +747,8 @@ class Machine:
             self.ctx.probe("errstate_raise.tripped")
             self.last = ("u", idx)
             self.twin = None  # the twin was not called: from here on single execution
+            self.rng_fresh = False
+            self.model_at_last_gen = None
         finally:
             self.errctx = None
 
@@ -829,7 +866,15 @@ class Machine:
         else:
             raise HarnessError("layout " + lay)
         if "value" in seed_arg:
+            if seed_arg["value"] != self.spec["seed"]:
+                self.rng_fresh = True
             self.spec["seed"] = seed_arg["value"]
+        mkey = jdump(self.spec["model"])
+        if self.model_at_last_gen is not None and mkey != self.model_at_last_gen:
+            self.rng_fresh = True  # the generator re-seeds when it meets a changed model
+        self.model_at_last_gen = mkey
+        rng_fresh, self.rng_fresh = self.rng_fresh, False
+        fresh_exact = None
         first = True
         for kind, what in calls:
             sa = seed_arg if first else {"mode": "keep"}
@@ -852,6 +897,8 @@ class Machine:
                 self.last = self.last_mesh
             if raised is not None:
                 self.ctx.probe("call_failed_midway")
+                rng_fresh = False
+                self.rng_fresh = False
                 continue
             (res, exp_desc) = results[0]
             self.ctx.observations += 1
@@ -861,6 +908,22 @@ class Machine:
                 if not close(res, tres, rtol=self.tol):
                     raise Violation("C11.twin_equal", layout=lay, nugget=nug,
                                     maxdiff=maxdiff(res, tres), seed=seed_arg)
+            if nug and rng_fresh and kind in ("u", "s"):
+                # freshly seeded stream: even the nugget noise equals that of a fresh object
+                # doing exactly the same call(s)
+                if fresh_exact is None:
+                    fresh_exact = build_srf(self.spec)
+                if kind == "u":
+                    fx = fresh_exact(self.pool[:, what].copy(), post_process=post, store=False)
+                else:
+                    fx = fresh_exact([np.array([a[j] for j in s_]) for a, s_ in
+                                      zip(self.axes, what)], mesh_type="structured",
+                                     post_process=post, store=False)
+                self.ctx.probe("nugget_noise_compared_with_fresh")
+                if not close(res, np.asarray(fx), rtol=self.tol):
+                    raise Violation("C11.fresh_after_change.nugget_noise", layout=lay,
+                                    maxdiff=maxdiff(res, np.asarray(fx)),
+                                    gen=self.spec["gen"]["kind"])
             if not nug:
                 exp = self._expected(kind, what, post, exp_desc)
                 if not close(res, exp, rtol=self.tol):
@@ -888,6 +951,9 @@ class Machine:
                 cells = [("line", np.array([[i, i + 1] for i in range(n - 1)]))]
                 if n >= 3:
                     cells.append(("triangle", np.array([[0, 1, 2]])))
+                if n >= 4:
+                    cells.append(("quad", np.array([[0, 1, 2, 3]])))
+                    cells.append(("line", np.array([[0, n - 1], [1, n - 1]])))
             else:
                 cells = [("vertex", np.array([[0]]))]
             mesh = meshio.Mesh(pts3, cells)
